@@ -198,6 +198,17 @@ pub fn es_e_patterns() -> Vec<Vec<u8>> {
         vec![b'a', 0x80],
         b"*A1 ".to_vec(),
         vec![0xE1, b'1'],
+        // about one codeword per character in every mode: many plans stay competitive for long
+        vec![b'a', b'9', b'a', b'1', b' ', 0xC8],
+        b"a!A~".to_vec(),
+        // a switch about every ten bytes: plans with hundreds of recorded switches
+        {
+            let mut v = b"ABCDEFGHIJKL".to_vec();
+            v.extend([0xE1u8; 8]);
+            v.extend(b"abcdefghijkl");
+            v.extend(b"!?#$%&*+;");
+            v
+        },
     ]
 }
 
@@ -405,6 +416,27 @@ pub fn es_r() -> Family {
                     }
                     out.push(v);
                 }
+            }
+        }
+    }
+    Family::list(out)
+}
+
+/// ES-T: a long run of one class whose length straddles 255/256 and 511/512 (where narrow counters
+/// saturate or wrap) followed by a short tail of another class.
+pub fn es_t() -> Family {
+    let mut out = Vec::new();
+    let classes: [&[u8]; 5] = [b"1", b"A", b"a", b"*", &[0x80]];
+    let tails: [&[u8]; 9] = [b"A", b"AB", b"ABCDE", b"a", b"abc", b"1", b"12", b"123", &[0x80]];
+    for c in classes {
+        for l in (253usize..=258).chain(509..=514) {
+            for t in tails {
+                if t[0] == c[0] {
+                    continue;
+                }
+                let mut v: Vec<u8> = c.iter().cycle().take(l).cloned().collect();
+                v.extend_from_slice(t);
+                out.push(v);
             }
         }
     }
